@@ -9,7 +9,7 @@ from vflib import ROOT, CACHE
 
 LAYER, WS, PKG = "exp", "harness_exp", "hexp"
 CLASS_IDX = {"clash": 0, "fk_cycle": 1, "datetime": 2, "slice_order": 3, "fk_closed": 4,
-             "py_ident": 5, "py_dup": 6, "py_empty_import": 7, "py_text": 8, "py_sqlmodel_text": 9, "rust_ident": 10, "py_sqlmodel_float_word": 11}
+             "py_ident": 5, "py_dup": 6, "py_empty_import": 7, "py_text": 8, "py_sqlmodel_text": 9, "rust_ident": 10, "py_sqlmodel_float_word": 11, "seaorm_doc_cr": 12}
 REPO_CRATES = ["core", "planner", "query", "exporter", "naming", "config", "loader", "cli"]
 
 
